@@ -77,13 +77,10 @@ Section WithLimiter.
                   | LOk ck => if hashable ck then LOk (ck, cv) else LErr LPyType
                   end
       end in
-    let item := fun kv : val * val =>          (* the (key, value) tuple of an ItemsView *)
-      match co_lim o (fst kv) with
+    let item := fun kv : val * val =>          (* the (key, value) tuple of an ItemsView: a sized 2-sequence *)
+      match limited lim true (co_lim o) [fst kv; snd kv] with
       | LErr e => LErr e
-      | LOk ck => match co_lim o (snd kv) with
-                  | LErr e => LErr e
-                  | LOk cv => LOk (seq_out o true [ck; cv])
-                  end
+      | LOk xs => LOk (seq_out o true xs)
       end in
     let elem := fun x : val =>
       match co_lim o x with
@@ -118,13 +115,16 @@ Section WithLimiter.
     end.
 End WithLimiter.
 
-(* the widest collection anywhere in a value *)
+(* the widest collection anywhere in a value (an ItemsView yields 2-tuples) *)
+Definition item_width (k : vkind) : nat := match k with KItems => 2 | _ => 0 end.
 Fixpoint width (v : val) : nat :=
   match v with
   | VNull | VBool _ | VInt _ | VFloat _ | VStr _ => 0
   | VTuple l | VList l | VFSet l | VSet l | VIter l | VOrd l => fold_right (fun x m => Nat.max (width x) m) (length l) l
-  | VFDict kvs | VDict kvs | VView _ kvs =>
+  | VFDict kvs | VDict kvs =>
       fold_right (fun kv m => Nat.max (Nat.max (width (fst kv)) (width (snd kv))) m) (length kvs) kvs
+  | VView k kvs =>
+      fold_right (fun kv m => Nat.max (Nat.max (item_width k) (Nat.max (width (fst kv)) (width (snd kv)))) m) (length kvs) kvs
   end.
 
 (* ---- correspondence ---------------------------------------------------------------- *)
